@@ -87,8 +87,9 @@ PROPS["C03"] = {
              "in fragment payloads or across reassembled fragments of any output of any call; finished: Send fails with no output; required: only a query; encrypted: the text is the plaintext of a data message under keys derived from the DH secrets; "
              "positive control: every text sent in plaintext state is found by the scanner. Non-trivial: texts sent in >=2 protection situations in one script, one of them finished or require-encryption."),
     "assumptions": COMMON_ASSUME,
-    "exhaustive_checks": ["C03queued", "C03faults", "C03policies"],
+    "exhaustive_checks": ["C03peerend", "C03queued", "C03faults", "C03policies"],
     "tests": [
+        {"name": "TestProp_C03_PeerEnds", "kind": "plain", "quick": {"shards": 4, "timeout": 600}, "thorough": {"shards": 4, "timeout": 3000}},
         {"name": "TestProp_C03_Queued", "kind": "plain", "quick": {"shards": 4, "timeout": 600}, "thorough": {"shards": 4, "timeout": 3000}},
         {"name": "TestProp_C03_Faults", "kind": "plain", "quick": {"shards": 8, "timeout": 600}, "thorough": {"shards": 16, "timeout": 3000}},
         {"name": "TestProp_C03_Leak", "quick": {"shards": 8, "checks": 120, "timeout": 400}, "thorough": {"shards": 16, "checks": 2500, "timeout": 3000}},
@@ -252,8 +253,9 @@ PROPS["C14"] = {
              "Receive: pieces of plaintext payloads (handed back as plaintext on completion, so processing is observable) and of genuine data messages of an authenticated reference peer; events next/restart/wrong total/duplicate/skip/index 0/k>n/foreign instance/unparsable/whole plaintext/whole data message; both header syntaxes. "
              "Oracle: Receive returns a plaintext exactly when the model completes and it equals the model's buffer (a data message completed twice is refused as a replay). Non-trivial: send >=3 pieces; receive: a fragment event after a completion or an out-of-order event mid-stream."),
     "assumptions": COMMON_ASSUME + ["parties hold a long-term key (a key-less conversation cannot commit to the fragment's version)"],
-    "exhaustive_checks": ["C14unbound", "C14sizes"],
+    "exhaustive_checks": ["C14fragake", "C14unbound", "C14sizes"],
     "tests": [
+        {"name": "TestProp_C14_FragAKE", "kind": "plain", "quick": {"shards": 4, "timeout": 600}, "thorough": {"shards": 4, "timeout": 3000}},
         {"name": "TestProp_C14_Unbound", "kind": "plain", "quick": {"shards": 2, "timeout": 600}, "thorough": {"shards": 2, "timeout": 3000}},
         {"name": "TestProp_C14_Send", "quick": {"shards": 8, "checks": 40, "timeout": 500}, "thorough": {"shards": 16, "checks": 700, "timeout": 3000}},
         {"name": "TestProp_C14_Sizes", "kind": "plain", "quick": {"shards": 4, "timeout": 500}, "thorough": {"shards": 8, "timeout": 3000}},
@@ -318,8 +320,9 @@ PROPS["C06"] = {
              "for key-exchange messages: bit flip, truncation, tags, version, replay, re-typed; source = the message in flight towards the receiver or an earlier one of the peer. The input must qualify as rejected (no plaintext, no event-worthy effect, nothing to send but an error reply). "
              "Enumeration: handshake delivered up to k=0..5 messages x receiver x 6 kinds x source x truncation points, then the rest of the handshake and traffic. Non-trivial: receiver was encrypted, mid-SMP or mid-key-exchange and the continuation delivered >=2 texts each way."),
     "assumptions": COMMON_ASSUME,
-    "exhaustive_checks": ["C06akelossy", "C06akestates", "C06firstuse"],
+    "exhaustive_checks": ["C06midsmp", "C06akelossy", "C06akestates", "C06firstuse"],
     "tests": [
+        {"name": "TestProp_C06_MidSMP", "kind": "plain", "quick": {"shards": 16, "timeout": 900}, "thorough": {"shards": 16, "timeout": 3000}},
         {"name": "TestProp_C06_AKELossy", "kind": "plain", "quick": {"shards": 16, "timeout": 900}, "thorough": {"shards": 16, "timeout": 3000}},
         {"name": "TestProp_C06_FirstUse", "kind": "plain", "quick": {"shards": 8, "timeout": 600}, "thorough": {"shards": 8, "timeout": 3000}},
         {"name": "TestProp_C06_Twin", "quick": {"shards": 8, "checks": 60, "timeout": 600}, "thorough": {"shards": 16, "checks": 1200, "timeout": 3000}},
